@@ -1,153 +1,13 @@
-(* C01 — flat-integer interface of the model for the generic OCaml driver (stream "history").
-
-   input :  sysMaxCpu sysMaxMem defMaxCpu defMaxMem  k  then k records of 15 integers
-            tag a1 .. a14   (pod = id cpu mem nonPreemptible bound ignored; bound: 1 = has a node
-            and is not terminated)
-              1 PodAdd      q pod
-              2 PodUpdate   qnew qold newpod oldpod
-              3 PodDelete   q pod
-              4 Reserve     q pod
-              5 Unreserve   q pod
-              6 Migrate     qout qin pod
-              7 QuotaUpdate name parent isParent lend maxCpu maxMem minCpu minMem (weights: ignored)
-              8 QuotaDelete name
-              9 Reset
-             10 Node*       (cluster total only)
-   observable: after every operation the summaries of all quotas in ascending name order:
-            nq, then per quota  name parent isParent lend max(2) min(2) request(2) childRequest(2)
-            selfRequest(2) nonPreemptibleRequest(2) selfNonPreemptibleRequest(2) used(2) selfUsed(2)
-            nonPreemptibleUsed(2) selfNonPreemptibleUsed(2) leak npods (podid assigned)* in id order. *)
+(* C01 — flat-integer interface of the model for the generic OCaml driver, stream "history"
+   (wire format: see Codec.v). *)
 From Coq Require Import List ZArith Bool.
-From Verif Require Import Lib.Wire Lib.Vec2 C01.Model C01.Spec.
+From Verif Require Import Lib.Wire Lib.Vec2 C01.Model C01.Spec C01.Codec.
 Import ListNotations.
 Open Scope Z_scope.
-
-Definition nthZ (l : list Z) (i : nat) : Z := nth i l 0.
-
-Definition dec_pod (l : list Z) (k : nat) : pod :=
-  mkPod (nthZ l k) (nthZ l (k + 1), nthZ l (k + 2)) (zb (nthZ l (k + 3)))
-        (nthZ l (k + 4) =? 1) (zb (nthZ l (k + 5))).
-
-Definition dec_op (r : list Z) : op :=
-  let a := fun i => nthZ r i in
-  match a 0%nat with
-  | 1 => OpPodAdd (a 1%nat) (dec_pod r 2)
-  | 2 => OpPodUpdate (a 1%nat) (a 2%nat) (dec_pod r 3) (dec_pod r 9)
-  | 3 => OpPodDelete (a 1%nat) (dec_pod r 2)
-  | 4 => OpReserve (a 1%nat) (dec_pod r 2)
-  | 5 => OpUnreserve (a 1%nat) (dec_pod r 2)
-  | 6 => OpMigrate (dec_pod r 3) (a 1%nat) (a 2%nat)
-  | 7 => OpQuotaUpdate (mkQ (a 1%nat) (a 2%nat) (zb (a 3%nat)) (zb (a 4%nat))
-                            (a 5%nat, a 6%nat) (a 7%nat, a 8%nat))
-  | 8 => OpQuotaDelete (a 1%nat)
-  | 9 => OpReset
-  | _ => OpNode
-  end.
-
-Fixpoint dec_ops (k : nat) (l : list Z) : list op :=
-  match k with
-  | O => []
-  | S k' => dec_op (firstn 15 l) :: dec_ops k' (skipn 15 l)
-  end.
-
-Definition decode (inp : list Z) : vec * vec * list op :=
-  match inp with
-  | a :: b :: c :: d :: k :: t => ((a, b), (c, d), dec_ops (Z.to_nat k) t)
-  | _ => (vzero, vzero, [])
-  end.
-
-(* ---------- observation ---------- *)
-
-Fixpoint insert_by {A} (key : A -> Z) (x : A) (l : list A) : list A :=
-  match l with
-  | [] => [x]
-  | y :: t => if key x <=? key y then x :: l else y :: insert_by key x t
-  end.
-Definition sort_by {A} (key : A -> Z) (l : list A) : list A := fold_right (insert_by key) [] l.
-
-Definition vz (v : vec) : list Z := [fst v; snd v].
-
-Definition obs_q (s : state) (q : qshape) : list Z :=
-  let r := st_r s (q_name q) in let u := st_u s (q_name q) in let ps := st_p s (q_name q) in
-  [q_name q; q_parent q; bz (q_isparent q); bz (q_lend q)]
-  ++ vz (q_max q) ++ vz (q_min q)
-  ++ vz (r_req r) ++ vz (r_creq r) ++ vz (r_sreq r) ++ vz (r_np r) ++ vz (r_snp r)
-  ++ vz (u_used u) ++ vz (u_sused u) ++ vz (u_np u) ++ vz (u_snp u)
-  ++ 0                                 (* amounts under keys outside the quota dimensions *)
-  :: Z.of_nat (length ps)
-     :: flat_map (fun pi => [pi_id pi; bz (pi_asg pi)]) (sort_by pi_id ps).
-
-Definition observe (s : state) : list Z :=
-  Z.of_nat (length (st_sh s)) :: flat_map (obs_q s) (sort_by q_name (st_sh s)).
 
 Definition run_case (inp : list Z) : list Z :=
   let '(sm, dm, ops) := decode inp in
   flat_map observe (trace (init sm dm) ops).
-
-(* ---------- the property on the implementation's observable ---------- *)
-
-(* the object last delivered for a pod by the history so far *)
-Fixpoint last_obj (h : list op) (id : Z) (acc : option pod) : option pod :=
-  match h with
-  | [] => acc
-  | o :: t =>
-      let acc' := match o with
-                  | OpPodAdd _ p => if p_id p =? id then Some p else acc
-                  | OpPodUpdate _ _ pn _ => if p_id pn =? id then Some pn else acc
-                  | _ => acc
-                  end in
-      last_obj t id acc'
-  end.
-
-(* a cache entry as the specification sees it: the pod counts with the request of its last
-   delivered object, and as used iff it is assigned *)
-Definition mk_pinfo (h : list op) (id : Z) (asg : bool) : pinfo :=
-  let rq := match last_obj h id None with Some p => p_req p | None => vzero end in
-  let np := match last_obj h id None with Some p => p_npreq p | None => vzero end in
-  mkPI id asg rq np (if asg then rq else vzero) (if asg then np else vzero).
-
-Fixpoint dec_pods (h : list op) (k : nat) (l : list Z) : list pinfo * list Z :=
-  match k, l with
-  | S k', id :: a :: t => let '(ps, r) := dec_pods h k' t in (mk_pinfo h id (zb a) :: ps, r)
-  | _, _ => ([], l)
-  end.
-
-Definition dec_q (h : list op) (l : list Z) : (qshape * racc * uacc * list pinfo * Z) * list Z :=
-  let a := fun i => nthZ l i in
-  let v := fun i => (nthZ l i, nthZ l (i + 1)) in
-  let '(ps, r) := dec_pods h (Z.to_nat (a 27%nat)) (skipn 28 l) in
-  ((mkQ (a 0%nat) (a 1%nat) (zb (a 2%nat)) (zb (a 3%nat)) (v 4%nat) (v 6%nat),
-    mkR (v 8%nat) (v 10%nat) (v 12%nat) (v 14%nat) (v 16%nat),
-    mkU (v 18%nat) (v 20%nat) (v 22%nat) (v 24%nat), ps, a 26%nat), r).
-
-Definition snapshot_state (qs : list (qshape * racc * uacc * list pinfo * Z)) : state :=
-  fold_right (fun x st => let '(q, r, u, ps, _) := x in
-                mkSt (q :: st_sh st) (fupd (st_r st) (q_name q) r) (fupd (st_u st) (q_name q) u)
-                     (fupd (st_p st) (q_name q) ps))
-             (mkSt [] (fun _ => r0) (fun _ => u0) (fun _ => [])) qs.
-
-(* the snapshot, the number of amounts found under keys outside the quota dimensions, the rest *)
-Definition dec_snapshot (h : list op) (l : list Z) : state * Z * list Z :=
-  let '(qs, r) := decode_seq (dec_q h) l in
-  (snapshot_state qs, fold_right (fun x acc => let '(_, _, _, _, k) := x in k + acc) 0 qs, r).
-
-(* walk the history with the model state alongside (only to evaluate the informer discipline);
-   every snapshot up to the first operation outside the discipline must satisfy the property *)
-Fixpoint check_steps (fuel : nat) (s : state) (done rest : list op) (obs : list Z) : Z :=
-  match fuel, rest with
-  | S f, o :: t =>
-      if wf_op s o then
-        match obs with
-        | [] => 99                                  (* a snapshot is missing *)
-        | _ =>
-            let h := done ++ [o] in
-            let '(snap, leak, obs') := dec_snapshot h obs in
-            let c := if leak =? 0 then state_code snap else 13 in   (* 13: the mask was not applied *)
-            if c =? 0 then check_steps f (step s o) h t obs' else c
-        end
-      else 0
-  | _, _ => 0
-  end.
 
 Definition prop_case (inp obs : list Z) : Z :=
   let '(sm, dm, ops) := decode inp in
